@@ -107,7 +107,7 @@ func (dc *TraditionalDnsConn) exchange(ctx context.Context, q []byte) (*[]byte, 
 	if respChan == nil {
 		return nil, ErrTDCTooManyQueries
 	}
-	defer dc.deleteQueueC(assignedQid)
+	defer dc.deleteQueueC(assignedQid, respChan)
 
 	// If a query was sent, server should have a reply (even not for this query) in a short time.
 	// This indicates the connection is healthy. Otherwise, this connection might be dead.
@@ -192,16 +192,11 @@ func (dc *TraditionalDnsConn) readResp() (payload *[]byte, err error) {
 
 // readLoop reads DnsConn until there was a read error.
 func (dc *TraditionalDnsConn) readLoop() {
-	// The query whose reply was dispatched last. Its queue entry is removed by its
-	// caller a moment later and must not be taken for a query that is still waiting.
-	var lastRid uint16
-	var lastChan chan<- *[]byte
-
 	for {
 		// Do not overwrite the (shorter) waiting-reply deadline armed by exchange().
 		dc.readDeadlineMu.Lock()
 		if !dc.waitingResp.Load() {
-			if dc.hasOtherWaiters(lastRid, lastChan) {
+			if dc.hasWaiters() {
 				// Other queries are still in flight: the connection is not idle, and a
 				// reply is still owed. Keep the waiting-reply deadline for them instead of
 				// the idle deadline, which may be much longer (a lost reply would keep its
@@ -221,7 +216,9 @@ func (dc *TraditionalDnsConn) readLoop() {
 		dc.waitingResp.Store(false)
 
 		rid := binary.BigEndian.Uint16(*r)
-		resChan := dc.getQueueC(rid)
+		// The query is answered: take its waiter out of the queue right away, so that
+		// the queue only holds queries that are still waiting for a reply.
+		resChan := dc.popQueueC(rid)
 		if resChan != nil {
 			select {
 			case resChan <- r: // resChan has buffer
@@ -231,20 +228,14 @@ func (dc *TraditionalDnsConn) readLoop() {
 		} else {
 			pool.ReleaseBuf(r)
 		}
-		lastRid, lastChan = rid, resChan
 	}
 }
 
-// hasOtherWaiters reports whether a query other than the one identified by
-// (qid, c) is waiting for its reply.
-func (dc *TraditionalDnsConn) hasOtherWaiters(qid uint16, c chan<- *[]byte) bool {
+// hasWaiters reports whether a query is waiting for its reply.
+func (dc *TraditionalDnsConn) hasWaiters() bool {
 	dc.queueMu.RLock()
 	defer dc.queueMu.RUnlock()
-	n := len(dc.queue)
-	if cur := dc.queue[uint32(qid)]; cur != nil && c != nil && (chan<- *[]byte)(cur) == c {
-		n--
-	}
-	return n > 0
+	return len(dc.queue) > 0
 }
 
 func (dc *TraditionalDnsConn) IsClosed() bool {
@@ -273,10 +264,13 @@ func (dc *TraditionalDnsConn) CloseWithErr(err error) {
 	})
 }
 
-func (dc *TraditionalDnsConn) getQueueC(qid uint16) chan<- *[]byte {
-	dc.queueMu.RLock()
-	defer dc.queueMu.RUnlock()
-	return dc.queue[uint32(qid)]
+// popQueueC removes the waiter of qid from the queue and returns it.
+func (dc *TraditionalDnsConn) popQueueC(qid uint16) chan<- *[]byte {
+	dc.queueMu.Lock()
+	defer dc.queueMu.Unlock()
+	c := dc.queue[uint32(qid)]
+	delete(dc.queue, uint32(qid))
+	return c
 }
 
 func (dc *TraditionalDnsConn) queueLen() int {
@@ -311,9 +305,13 @@ func (dc *TraditionalDnsConn) addQueueC() (qid uint16, c chan *[]byte) {
 	return 0, nil
 }
 
-func (dc *TraditionalDnsConn) deleteQueueC(qid uint16) {
+// deleteQueueC removes the waiter c of qid, unless readLoop has already taken it
+// out (the qid may belong to a later query by now).
+func (dc *TraditionalDnsConn) deleteQueueC(qid uint16, c chan *[]byte) {
 	dc.queueMu.Lock()
-	delete(dc.queue, uint32(qid))
+	if dc.queue[uint32(qid)] == c {
+		delete(dc.queue, uint32(qid))
+	}
 	dc.queueMu.Unlock()
 }
 
